@@ -94,6 +94,7 @@ PROPS["C02"] = {
 
 # ---------------------------------------------------------------- C03
 PROPS["C03"] = {
+    "validate_tests": "TestKnownFindingMatchPath",
     "programs": {
         "quick": [P(".", "VerifPathSelectorShape", must_reach=("end", "empty-path"), len=3),
                   P("test", "VerifPathTraversal", must_reach=("end", "present", "absent"))],
@@ -158,6 +159,7 @@ PROPS["C06"] = {
 
 # ---------------------------------------------------------------- C07
 PROPS["C07"] = {
+    "validate_tests": "TestRefBalancedMatchesBoxo|TestBuilderMatchesBoxo",
     "programs": {
         "quick": [P("test", "VerifFileStructure", must_reach=("end", "empty"), w=2, k=1, maxn=9),
                   P("test", "VerifFileStructure", w=3, k=1, maxn=13, minn=1)],
@@ -174,6 +176,7 @@ PROPS["C07"] = {
 
 # ---------------------------------------------------------------- C08
 PROPS["C08"] = {
+    "validate_tests": "TestRefHAMTAndBuilderMatchBoxo|TestBoxoHistoriesLeaveWellFormedReadableShards",
     "programs": {
         "quick": [P("test", "VerifShardedDir", lg=3, entries=2, maxdepth=2),
                   P("data/builder", "VerifBuilderSlice", must_reach=("end", "too-deep")),
